@@ -2,11 +2,13 @@
 package c15
 
 import (
+	"bytes"
 	"encoding/json"
 	"errors"
 	"fmt"
 	"io"
 	"os"
+	"strings"
 	"sync"
 	"sync/atomic"
 	"testing"
@@ -28,7 +30,7 @@ func TestMain(m *testing.M) {
 
 type Op struct {
 	I    int    `json:"i,omitempty"` // writer instance (several instances share the buffer pool)
-	K    string `json:"k"`           // w | trigger | close | new
+	K    string `json:"k"`           // w | trigger | close | new | consolefail (a ConsoleWriter elsewhere fails to deliver)
 	L    int    `json:"l,omitempty"`
 	Line []byte `json:"line,omitempty"`
 }
@@ -70,6 +72,11 @@ type dest struct {
 }
 
 var errDest = errors.New("destination refused the line")
+
+// downOut fails every write.
+type downOut struct{}
+
+func (downOut) Write(p []byte) (int, error) { return 0, errDest }
 
 func (d *dest) Write(p []byte) (int, error) { return d.take(-100, p) }
 
@@ -209,6 +216,14 @@ func run(c *Case) (string, bool) {
 		case "close":
 			in.tw.Close()
 			in.held = nil
+		case "consolefail":
+			// elsewhere in the program a ConsoleWriter fails to deliver a line (its Out is down): whatever it
+			// does with its buffers, none of that text belongs to this writer's destination
+			cw := zerolog.ConsoleWriter{Out: downOut{}, NoColor: true}
+			cw.Write([]byte(`{"level":"info","message":"console text that must not leak","k":"` + strings.Repeat("c", 40) + `"}` + "\n"))
+			cw.FormatExtra = func(map[string]interface{}, *bytes.Buffer) error { return errDest }
+			cw.Out = io.Discard
+			cw.Write([]byte(`{"level":"warn","message":"nor this one"}` + "\n"))
 		case "new":
 			in.tw.Close()
 			mk(in)
@@ -437,7 +452,7 @@ func TestRapid(t *testing.T) {
 			ninst = 2
 		}
 		for i := 0; i < n; i++ {
-			switch k := rapid.SampledFrom([]string{"w", "w", "w", "w", "w", "w", "trigger", "close", "new"}).Draw(rt, "op"); k {
+			switch k := rapid.SampledFrom([]string{"w", "w", "w", "w", "w", "w", "trigger", "close", "new", "consolefail"}).Draw(rt, "op"); k {
 			case "w":
 				c.Ops = append(c.Ops, Op{I: rapid.IntRange(0, ninst-1).Draw(rt, "inst"), K: "w", L: genLevel(rt), Line: genLine(rt)})
 			default:
